@@ -1,10 +1,99 @@
+(* C28  Supercell occupancy bookkeeping stays consistent over any edit history.
+   Statements only; every proof is `exact <lemma>` of Proofs/Supercell_proofs.v.
+   N = number of sites, Nchem = number of declared species (vacancy = -1, species 0..Nchem-1), both
+   arbitrary; g = the guard of setocc, any function that rejects exactly the undeclared species
+   (guard_ok); histories = arbitrary lists of operations whose arguments lie in op_dom (no negative
+   Python subscripts as site indices, one mapping list per species, site maps that are permutations;
+   species, mapping contents and out-of-range sites are arbitrary). *)
 From Coq Require Import List ZArith Bool.
 From Onsager Require Import Model.Supercell Proofs.Supercell_proofs.
 Import ListNotations.
 Local Open Scope Z_scope.
 
-Theorem C28_tmp : forall cn, 0 <= cn -> guard_source cn (-2) = false.
-Proof. exact guard_source_accepts_m2. Qed.
+(* After ANY history from the empty supercell, both objects (the edited one and the original of
+   the last copy) and the last POSCAR written are consistent. *)
+Theorem C28_history :
+  forall g N Nchem, guard_ok g Nchem -> forall ops m,
+    MInv N Nchem m -> Forall (op_dom N Nchem) ops -> MInv N Nchem (run g m ops).
+Proof. exact history_inv. Qed.
 
-Goal True. idtac "ASSUMPTIONS-OF C28_tmp". Abort.
-Print Assumptions C28_tmp.
+Theorem C28_initial : forall N Nchem, MInv N Nchem (init N Nchem).
+Proof. exact init_minv. Qed.
+
+(* One step, any operation, any outcome (exceptions included). *)
+Theorem C28_step :
+  forall g N Nchem m o, guard_ok g Nchem -> MInv N Nchem m -> op_dom N Nchem o -> MInv N Nchem (fst (step g m o)).
+Proof. exact step_inv. Qed.
+
+(* At every point of every history every declared species (vacancy .. last solute) can be placed on
+   every site, with exactly that site changed; every other species is rejected and nothing changes. *)
+Theorem C28_species :
+  forall g N Nchem ops i c,
+    guard_ok g Nchem -> Forall (op_dom N Nchem) ops -> 0 <= i < Z.of_nat N ->
+    let s := cur (run g (init N Nchem) ops) in
+    (declared Nchem c -> exists s', setocc g s i c = (s', OK) /\ Inv N Nchem s' /\
+                                    nth_error (occ s') (Z.to_nat i) = Some c /\
+                                    forall k, k <> Z.to_nat i -> nth_error (occ s') k = nth_error (occ s) k) /\
+    (~ declared Nchem c -> setocc g s i c = (s, IndexError)).
+Proof. exact history_species. Qed.
+
+Theorem C28_setocc_rejects :
+  forall g Nchem, guard_ok g Nchem -> forall s ind c, ~ declared Nchem c -> setocc g s ind c = (s, IndexError).
+Proof. exact setocc_rejects. Qed.
+
+(* Applying a site permutation moves occupation and ordering together. *)
+Theorem C28_imul :
+  forall N Nchem s idx, Inv N Nchem s -> is_perm N idx ->
+    exists s', imul idx s = (s', OK) /\ Inv N Nchem s' /\
+      chemorder s' = map (map (pidx idx)) (chemorder s) /\
+      (forall m, (m < N)%nat -> nth_error (occ s') (Z.to_nat (nth m idx 0)) = nth_error (occ s) m).
+Proof. exact imul_spec. Qed.
+
+(* Writing a POSCAR and reading it back -- into any consistent supercell of the same shape --
+   reproduces occupation and ordering exactly (content level). *)
+Theorem C28_poscar_roundtrip :
+  forall g N Nchem s s0, guard_ok g Nchem -> Inv N Nchem s -> Inv N Nchem s0 ->
+    exists content, poscar_write s = Some content /\ poscar_read g content s0 = (s, OK).
+Proof. exact poscar_roundtrip. Qed.
+
+(* The guard the property demands (and the proposed repair  c < -1 or c >= self.Nchem) is one. *)
+Theorem C28_declared_guard_ok : forall nchem, guard_ok (guard_declared (Z.of_nat nchem)) nchem.
+Proof. exact guard_ok_declared. Qed.
+
+(* The guard as written in the pinned source,  c < -2 or c > self.crys.Nchem,  is not, for any
+   crystal and any number of solutes; three concrete histories show each clause of the property
+   failing in the faithful model (replayed on the implementation by harness/c28.py). *)
+Theorem C28_source_guard_refuted :
+  (forall cn ns : nat, ~ guard_ok (guard_source (Z.of_nat cn)) (cn + ns)) /\
+  (exists ops, Forall (op_dom 2 1) ops /\ ~ MInv 2 1 (run (guard_source 1) (init 2 1) ops) /\
+               snd (step (guard_source 1) (init 2 1) (OSet 0 (-2))) = OK /\ ~ declared 1 (-2)) /\
+  (declared 3 2 /\ step (guard_source 1) (init 2 3) (OSet 0 2) = (init 2 3, IndexError)) /\
+  (exists ops, Forall (op_dom 2 1) ops /\ ~ declared 1 1 /\
+               snd (step (guard_source 1) (run (guard_source 1) (init 2 1) ops) (OSet 0 1)) = IndexError /\
+               ~ MInv 2 1 (fst (step (guard_source 1) (run (guard_source 1) (init 2 1) ops) (OSet 0 1)))).
+Proof. exact source_guard_refuted. Qed.
+
+(* The executable invariant checker that the harness runs on the implementation's states is sound. *)
+Theorem C28_checker_sound : forall N Nchem s, invb N Nchem s = true -> Inv N Nchem s.
+Proof. exact invb_sound. Qed.
+
+Goal True. idtac "ASSUMPTIONS-OF C28_history". Abort.
+Print Assumptions C28_history.
+Goal True. idtac "ASSUMPTIONS-OF C28_initial". Abort.
+Print Assumptions C28_initial.
+Goal True. idtac "ASSUMPTIONS-OF C28_step". Abort.
+Print Assumptions C28_step.
+Goal True. idtac "ASSUMPTIONS-OF C28_species". Abort.
+Print Assumptions C28_species.
+Goal True. idtac "ASSUMPTIONS-OF C28_setocc_rejects". Abort.
+Print Assumptions C28_setocc_rejects.
+Goal True. idtac "ASSUMPTIONS-OF C28_imul". Abort.
+Print Assumptions C28_imul.
+Goal True. idtac "ASSUMPTIONS-OF C28_poscar_roundtrip". Abort.
+Print Assumptions C28_poscar_roundtrip.
+Goal True. idtac "ASSUMPTIONS-OF C28_declared_guard_ok". Abort.
+Print Assumptions C28_declared_guard_ok.
+Goal True. idtac "ASSUMPTIONS-OF C28_source_guard_refuted". Abort.
+Print Assumptions C28_source_guard_refuted.
+Goal True. idtac "ASSUMPTIONS-OF C28_checker_sound". Abort.
+Print Assumptions C28_checker_sound.
